@@ -52,6 +52,8 @@ struct LowerCtx {
     stage: Stage,
     diagnostics: Diagnostics,
     constructor_names: HashSet<String>,
+    /// Names bound by the enclosing parameters, closure parameters and patterns, innermost last.
+    locals: Vec<String>,
 }
 
 impl LowerCtx {
@@ -61,6 +63,7 @@ impl LowerCtx {
             stage: Stage::other("lower"),
             diagnostics: Diagnostics::new(),
             constructor_names,
+            locals: Vec::new(),
         }
     }
 
@@ -79,6 +82,22 @@ impl LowerCtx {
     }
     fn is_constructor(&self, ident: &ast::AstIdent) -> bool {
         self.constructor_names.contains(&ident.0)
+    }
+
+    /// Does a path in expression position name a constructor? A bare name that an enclosing
+    /// local binder introduces refers to that binder, however it is spelled.
+    fn is_constructor_path(&self, path: &ast::Path, last: &ast::AstIdent) -> bool {
+        self.is_constructor(last) && !(path.len() == 1 && self.locals.contains(&last.0))
+    }
+
+    fn bind_pat(&mut self, pat: &ast::Pat) {
+        match pat {
+            ast::Pat::PVar { name, .. } => self.locals.push(name.0.clone()),
+            ast::Pat::PConstr { args, .. } => args.iter().for_each(|p| self.bind_pat(p)),
+            ast::Pat::PStruct { fields, .. } => fields.iter().for_each(|(_, p)| self.bind_pat(p)),
+            ast::Pat::PTuple { pats, .. } => pats.iter().for_each(|p| self.bind_pat(p)),
+            _ => {}
+        }
     }
 }
 
@@ -524,7 +543,7 @@ fn lower_fn(ctx: &mut LowerCtx, node: cst::Fn) -> Option<ast::Fn> {
                 (generics, bounds)
             })
             .unwrap_or_default();
-    let params = match node.param_list() {
+    let params: Vec<(ast::AstIdent, ast::TypeExpr)> = match node.param_list() {
         Some(list) => list
             .params()
             .flat_map(|param| lower_param(ctx, param))
@@ -538,7 +557,11 @@ fn lower_fn(ctx: &mut LowerCtx, node: cst::Fn) -> Option<ast::Fn> {
         }
     };
     let ret_ty = node.return_type().and_then(|ty| lower_ty(ctx, ty));
-    let body = match node.block().and_then(|block| lower_block(ctx, block)) {
+    let outer_locals = ctx.locals.len();
+    ctx.locals.extend(params.iter().map(|(param, _)| param.0.clone()));
+    let body = node.block().and_then(|block| lower_block(ctx, block));
+    ctx.locals.truncate(outer_locals);
+    let body = match body {
         Some(body) => body,
         None => {
             ctx.push_error(
@@ -721,6 +744,7 @@ fn lower_extern(ctx: &mut LowerCtx, node: cst::Extern) -> Option<ast::Item> {
 fn lower_block(ctx: &mut LowerCtx, node: cst::Block) -> Option<ast::Expr> {
     let mut exprs: Vec<ast::Expr> = Vec::new();
     let astptr = MySyntaxNodePtr::new(node.syntax());
+    let outer_locals = ctx.locals.len();
 
     for stmt in node.stmts() {
         if let Some(expr) = lower_stmt(ctx, stmt) {
@@ -735,6 +759,7 @@ fn lower_block(ctx: &mut LowerCtx, node: cst::Block) -> Option<ast::Expr> {
     } else {
         exprs.push(ast::Expr::EUnit { astptr });
     }
+    ctx.locals.truncate(outer_locals);
 
     Some(ast::Expr::EBlock { exprs, astptr })
 }
@@ -766,6 +791,7 @@ fn lower_stmt(ctx: &mut LowerCtx, stmt: cst::Stmt) -> Option<ast::Expr> {
             };
             let annotation = it.ty().and_then(|ty| lower_ty(ctx, ty));
             let value = lower_expr(ctx, value_node)?;
+            ctx.bind_pat(&pat);
             Some(ast::Expr::ELet {
                 pat,
                 annotation,
@@ -1168,7 +1194,7 @@ fn lower_expr_with_args(
                             .expect("paths must contain at least one segment");
                         let callee_astptr = MySyntaxNodePtr::new(ident_expr.syntax());
 
-                        if ctx.is_constructor(&variant_ident) {
+                        if ctx.is_constructor_path(&constructor, &variant_ident) {
                             let constr = ast::Expr::EConstr {
                                 constructor,
                                 args,
@@ -1464,7 +1490,7 @@ fn lower_expr_with_args(
                 .last_ident()
                 .cloned()
                 .expect("paths must contain at least one segment");
-            if ctx.is_constructor(&variant_ident) {
+            if ctx.is_constructor_path(&constructor, &variant_ident) {
                 // `!Some(x)`: the constructor's argument list arrives as a pending call
                 let mut trailing_args = trailing_args;
                 let args = match trailing_args.first() {
@@ -1764,7 +1790,7 @@ fn lower_expr_with_args(
                 return None;
             }
 
-            let params = match it.params() {
+            let params: Vec<ast::ClosureParam> = match it.params() {
                 Some(list) => list
                     .params()
                     .flat_map(|param| lower_closure_param(ctx, param))
@@ -1783,17 +1809,21 @@ fn lower_expr_with_args(
                 return None;
             };
 
+            let outer_locals = ctx.locals.len();
+            ctx.locals.extend(params.iter().map(|param| param.name.0.clone()));
             let body = if let Some(block) = body_node.block() {
-                lower_block(ctx, block)?
+                lower_block(ctx, block)
             } else if let Some(expr) = body_node.expr() {
-                lower_expr(ctx, expr)?
+                lower_expr(ctx, expr)
             } else {
                 ctx.push_error(
                     Some(body_node.syntax().text_range()),
                     "Closure body missing expr",
                 );
-                return None;
+                None
             };
+            ctx.locals.truncate(outer_locals);
+            let body = body?;
 
             Some(ast::Expr::EClosure {
                 params,
@@ -1928,6 +1958,8 @@ fn lower_arg(ctx: &mut LowerCtx, node: cst::Arg) -> Option<ast::Expr> {
 
 fn lower_arm(ctx: &mut LowerCtx, node: cst::MatchArm) -> Option<ast::Arm> {
     let pat = node.pattern().and_then(|pat| lower_pat(ctx, pat))?;
+    let outer_locals = ctx.locals.len();
+    ctx.bind_pat(&pat);
     let body = if let Some(expr) = node.expr() {
         lower_expr(ctx, expr)
     } else if let Some(block) = support::child::<cst::Block>(node.syntax()) {
@@ -1935,8 +1967,9 @@ fn lower_arm(ctx: &mut LowerCtx, node: cst::MatchArm) -> Option<ast::Arm> {
     } else {
         ctx.push_error(Some(node.syntax().text_range()), "Match arm has no body");
         None
-    }?;
-    Some(ast::Arm { pat, body })
+    };
+    ctx.locals.truncate(outer_locals);
+    Some(ast::Arm { pat, body: body? })
 }
 
 fn lower_pat(ctx: &mut LowerCtx, node: cst::Pattern) -> Option<ast::Pat> {
